@@ -3,6 +3,7 @@
 -/
 import Kopf.Model.C14_Resume
 import Kopf.Lemmas.C14_Resume
+import Kopf.Lemmas.C14_Step
 namespace Kopf.C14
 open Kopf Kopf.C02
 
@@ -17,11 +18,11 @@ theorem selected_sub_owned (decls : List Decl) (mem : Mem) (e : Event) :
 theorem invoked_gated (decls : List Decl) (m : Option Mem) (P : Store) (e : Event) (i : Id) (n : Nat)
     (h : (i, n) ∈ (step decls m P e).invoked) :
     ∃ d ∈ decls, d.id = i ∧ C05.gate d.gate (causeOf (recall m e) e) = true ∧ e.matchF d.id = true := by
-  unfold step at h
   by_cases hs : e.suppressed = true
-  · simp [hs] at h
-  · simp only [hs, Bool.false_eq_true, if_false] at h
-    have := (invoked_selected_awake _ P e.now e.now1 e.exec (selected_sub_owned decls (recall m e) e) i n h).1
+  · rw [step_suppressed decls m P e hs] at h; simp at h
+  · have hs' : e.suppressed = false := by simpa using hs
+    rw [(step_eq decls m P e hs').1] at h
+    have := (invoked_selected_awake _ _ e.now e.now1 e.exec (selected_sub_owned decls (recall m e) e) i n h).1
     simp only [cfgOf, selectedOf, List.mem_map, List.mem_filter, Bool.and_eq_true] at this
     obtain ⟨d, ⟨hd, ⟨hg, hm⟩, _⟩, rfl⟩ := this
     exact ⟨d, hd, rfl, hg, hm⟩
@@ -31,7 +32,7 @@ theorem invoked_gated (decls : List Decl) (m : Option Mem) (P : Store) (e : Even
 theorem resume_invoked_only_initial (decls : List Decl) (m : Option Mem) (P : Store) (e : Event)
     (i : Id) (n : Nat) (h : (i, n) ∈ (step decls m P e).invoked)
     (hres : ∀ d ∈ decls, d.id = i → d.gate.initial = true) :
-    (recall m e).noticed = true ∧ (recall m e).fullyHandled = false ∧
+    (recall m e).noticed = some true ∧ (recall m e).fullyHandled = false ∧
     (causeOf (recall m e) e).reason ≠ .create ∧
     (e.marked = true → ∃ d ∈ decls, d.id = i ∧ d.gate.deletedOptIn = true) := by
   obtain ⟨d, hd, hid, hg, _⟩ := invoked_gated decls m P e i n h
@@ -39,7 +40,7 @@ theorem resume_invoked_only_initial (decls : List Decl) (m : Option Mem) (P : St
   have hcm : (causeOf (recall m e) e).marked = e.marked := rfl
   have hcinit : (causeOf (recall m e) e).initial =
       (if C05.detectReason (inOf (recall m e) e) = .create then false
-       else ((recall m e).noticed && !(recall m e).fullyHandled)) := rfl
+       else ((recall m e).isNoticed && !(recall m e).fullyHandled)) := rfl
   have hcr : (causeOf (recall m e) e).reason = C05.detectReason (inOf (recall m e) e) := rfl
   unfold C05.gate at hg
   rw [hini, hcm] at hg
@@ -49,7 +50,7 @@ theorem resume_invoked_only_initial (decls : List Decl) (m : Option Mem) (P : St
   have hnc : C05.detectReason (inOf (recall m e) e) ≠ .create := by
     intro hc; simp [hc] at hci
   simp only [hnc, if_false, Bool.and_eq_true, Bool.not_eq_true'] at hci
-  refine ⟨hci.1, hci.2, by rw [hcr]; exact hnc, ?_⟩
+  refine ⟨by simpa [Mem.isNoticed] using hci.1, hci.2, by rw [hcr]; exact hnc, ?_⟩
   intro hm
   refine ⟨d, hd, hid, ?_⟩
   cases hopt : d.gate.deletedOptIn
@@ -57,9 +58,9 @@ theorem resume_invoked_only_initial (decls : List Decl) (m : Option Mem) (P : St
   · rfl
 
 /-- Objects first seen through a watch event (not a listing) never get resume handlers in this
-    process: the memory's `noticed` flag is fixed at creation. -/
+    process: once decided, the memory's `noticed` flag is fixed. -/
 theorem not_for_new (decls : List Decl) (events : List Event) :
-    ∀ (mem : Mem) (P : Store), mem.noticed = false → (∀ e ∈ events, e.deleted = false) →
+    ∀ (mem : Mem) (P : Store), mem.noticed = some false → (∀ e ∈ events, e.deleted = false) →
     ∀ l ∈ run decls (some mem) P events, ∀ i n, (i, n) ∈ l →
       ¬ (∀ d ∈ decls, d.id = i → d.gate.initial = true) := by
   induction events with
@@ -71,7 +72,7 @@ theorem not_for_new (decls : List Decl) (events : List Event) :
     · have := (resume_invoked_only_initial decls (some mem) P e i n hin hres).1
       simp [recall, hn] at this
     · have hde : e.deleted = false := hdel e (by simp)
-      have hmem : ∃ mem', (step decls (some mem) P e).mem = some mem' ∧ mem'.noticed = false := by
+      have hmem : ∃ mem', (step decls (some mem) P e).mem = some mem' ∧ mem'.noticed = some false := by
         unfold step
         by_cases hs : e.suppressed = true
         · simp [hs, hde, recall, hn]
@@ -93,13 +94,17 @@ theorem after_fully_handled_never (decls : List Decl) (events : List Event) :
     simp only [run, List.mem_cons] at hl
     rcases hl with rfl | hl
     · have := (resume_invoked_only_initial decls (some mem) P e i n hin hres).2.1
-      simp [recall, hf] at this
+      rw [recall_some_fullyHandled, hf] at this; cases this
     · have hde : e.deleted = false := hdel e (by simp)
       have hmem : ∃ mem', (step decls (some mem) P e).mem = some mem' ∧ mem'.fullyHandled = true := by
-        unfold step
         by_cases hs : e.suppressed = true
-        · simp [hs, hde, recall, hf]
-        · simp [hs, hde, recall, hf]
+        · rw [step_suppressed _ _ _ _ hs]
+          simp only [hde, Bool.false_eq_true, if_false]
+          exact ⟨_, rfl, by rw [recall_some_fullyHandled]; exact hf⟩
+        · have hs' : e.suppressed = false := by simpa using hs
+          rw [(step_eq decls (some mem) P e hs').2.2]
+          simp only [hde, Bool.false_eq_true, if_false]
+          exact ⟨_, rfl, by simp [recall_some_fullyHandled, hf]⟩
       obtain ⟨mem', hm', hf'⟩ := hmem
       rw [hm'] at hl
       exact ih mem' _ hf' (fun e' he' => hdel e' (by simp [he'])) l hl i n hin hres
@@ -109,12 +114,12 @@ theorem reason_not_create (mem : Mem) (e : Event) (h : e.oldAbsent = false) :
   unfold C05.detectReason inOf
   simp only [h]
   cases e.deleted <;> cases e.marked <;> cases e.blocked <;> cases e.diffNonEmpty <;>
-    cases (mem.noticed && !mem.fullyHandled) <;> simp
+    cases (mem.isNoticed && !mem.fullyHandled) <;> simp
 
 /-- An object still to be resumed (listed, not yet fully handled) never yields the no-op cause, so the
     no-op purge of leftover records never removes a resume handler's finished record prematurely. -/
 theorem reason_not_noop_of_initial (mem : Mem) (e : Event)
-    (h : (mem.noticed && !mem.fullyHandled) = true) :
+    (h : (mem.isNoticed && !mem.fullyHandled) = true) :
     ((cfgOf decls mem e).reason == "noop") = false := by
   show (reasonStr (C05.detect (inOf mem e)).reason == "noop") = false
   unfold C05.detect C05.detectReason inOf
@@ -126,7 +131,7 @@ theorem reason_not_noop_of_initial (mem : Mem) (e : Event)
 /-- A matching resume handler of an object still to be resumed, not yet finished in this process, is selected. -/
 theorem matching_selected (decls : List Decl) (d : Decl) (hd : d ∈ decls)
     (hini : d.gate.initial = true) (hreason : d.gate.reason = none)
-    (mem : Mem) (hn : mem.noticed = true) (hf : mem.fullyHandled = false) (hnr : d.id ∉ mem.resumed)
+    (mem : Mem) (hn : mem.noticed = some true) (hf : mem.fullyHandled = false) (hnr : d.id ∉ mem.resumed)
     (e : Event) (hold : e.oldAbsent = false) (hmatch : e.matchF d.id = true)
     (hopt : e.marked = true → d.gate.deletedOptIn = true) :
     d.id ∈ (cfgOf decls mem e).selected := by
@@ -134,10 +139,11 @@ theorem matching_selected (decls : List Decl) (d : Decl) (hd : d ∈ decls)
   refine ⟨d, ⟨hd, ⟨?_, hmatch⟩, by simp [hnr]⟩, rfl⟩
   have hcm : (causeOf mem e).marked = e.marked := rfl
   have hcinit : (causeOf mem e).initial =
-      (if C05.detectReason (inOf mem e) = .create then false else (mem.noticed && !mem.fullyHandled)) := rfl
+      (if C05.detectReason (inOf mem e) = .create then false else (mem.isNoticed && !mem.fullyHandled)) := rfl
+  have hno : mem.isNoticed = true := by simp [Mem.isNoticed, hn]
   unfold C05.gate
   rw [hini, hreason, hcm, hcinit]
-  simp only [reason_not_create mem e hold, if_false, hn, hf]
+  simp only [reason_not_create mem e hold, if_false, hno, hf]
   cases hm : e.marked
   · simp
   · simp [hopt hm]
@@ -151,7 +157,7 @@ theorem eligible_selected (decls : List Decl) (d : Decl) (hd : d ∈ decls)
     (hold : e.oldAbsent = false) (hdiff : e.diffNonEmpty = false) (hmatch : e.matchF d.id = true) :
     (causeOf (recall none e) e).reason = .resume ∧ d.id ∈ (cfgOf decls (recall none e) e).selected := by
   constructor
-  · simp [causeOf, C05.detect, C05.detectReason, inOf, recall, hl, hdel, hm, hold, hdiff]
+  · simp [causeOf, C05.detect, C05.detectReason, inOf, Mem.isNoticed, recall, hl, hdel, hm, hold, hdiff]
   · exact matching_selected decls d hd hini hreason (recall none e) (by simp [recall, hl]) (by simp [recall])
       (by simp [recall]) e hold hmatch (by simp [hm])
 
@@ -171,17 +177,19 @@ theorem eligible_invoked (decls : List Decl) (d : Decl) (hd : d ∈ decls)
   have hsel := matching_selected decls d hd hini hreason (recall none e) (by simp [recall, hl]) (by simp [recall])
       (by simp [recall]) e hold hmatch (by simp [hm])
   have hcause : (causeOf (recall none e) e).reason = (if e.diffNonEmpty then .update else .resume) := by
-    simp only [causeOf, C05.detect, C05.detectReason, inOf, recall, hl, hdel, hm, hold]
+    simp only [causeOf, C05.detect, C05.detectReason, inOf, Mem.isNoticed, recall, hl, hdel, hm, hold]
     cases e.diffNonEmpty <;> simp
   have hreason' : handlerReasons.contains (cfgOf decls (recall none e) e).reason = true := by
     show handlerReasons.contains (reasonStr (causeOf (recall none e) e).reason) = true
     rw [hcause]
     cases e.diffNonEmpty <;> decide
-  have hinv := due_invoked_all_at_once (cfgOf decls (recall none e) e) P e.now e.now1 e.exec
+  have hT : takenOf decls (recall none e) e P d.id = none := takenOf_none hP
+  have hinv := due_invoked_all_at_once (cfgOf decls (recall none e) e) (takenOf decls (recall none e) e P)
+    e.now e.now1 e.exec
     hreason' hlc d.id hsel (selected_sub_owned decls (recall none e) e d.id hsel)
-    (by simp [startRec, hP, fresh, Rec.awakened, Rec.sleeping, Rec.finished])
+    (by simp [startRec, hT, fresh, Rec.awakened, Rec.sleeping, Rec.finished])
     (by
-      simp only [startRec, hP, fresh, precheckFails]
+      simp only [startRec, hT, fresh, precheckFails]
       show ((match (e.limits d.id).timeout with | some t => decide (e.now - e.now ≥ t) | none => false) ||
             (match (e.limits d.id).retries with | some n => decide (0 ≥ n) | none => false)) = false
       cases ht : (e.limits d.id).timeout with
@@ -194,17 +202,16 @@ theorem eligible_invoked (decls : List Decl) (d : Decl) (hd : d ∈ decls)
         cases hn : (e.limits d.id).retries with
         | none => simp; omega
         | some n => have h2 := hre n hn; simp; exact ⟨by omega, by omega⟩)
-  rw [hP] at hinv
+  rw [hT] at hinv
   refine ⟨?_, hcause⟩
-  unfold step
-  simp only [hs, Bool.false_eq_true, if_false]
+  rw [(step_eq decls none P e hs).1]
   exact hinv
 
 /-- A first cycle that is suppressed (the finalizer is being added, or the object's own patch is awaited)
     loses nothing: the object stays "to be resumed", so the next event still carries the resuming cause. -/
 theorem suppressed_keeps_initial (decls : List Decl) (e : Event) (P : C02.Store)
     (hl : e.byListing = true) (hdel : e.deleted = false) (hs : e.suppressed = true) :
-    (step decls none P e).mem = some { noticed := true, fullyHandled := false, resumed := [] } ∧
+    (step decls none P e).mem = some { noticed := some true, fullyHandled := false, resumed := [] } ∧
     (step decls none P e).invoked = [] := by
   unfold step
   simp [hs, hdel, recall, hl]
@@ -219,12 +226,12 @@ theorem marked_listed_selected_iff_optin (decls : List Decl) (i : Id)
     (i ∈ (cfgOf decls (recall none e) e).selected ↔
       (∃ d ∈ decls, d.id = i ∧ d.gate.deletedOptIn = true) ∧ e.matchF i = true) := by
   have hr : C05.detectReason (inOf (recall none e) e) = .delete := by
-    simp [C05.detectReason, inOf, recall, hdel, hm, hb]
+    simp [C05.detectReason, inOf, hdel, hm, hb]
   have hcause : causeOf (recall none e) e = { reason := .delete, initial := true, marked := true } := by
     show C05.detect (inOf (recall none e) e) = _
     unfold C05.detect
     rw [hr]
-    simp [inOf, recall, hl, hm]
+    simp [inOf, Mem.isNoticed, recall, hl, hm]
   refine ⟨by rw [hcause], ?_⟩
   simp only [cfgOf, selectedOf, List.mem_map, List.mem_filter, Bool.and_eq_true, hcause]
   constructor
@@ -252,55 +259,175 @@ example :
 
 /-- An object marked for deletion that the operator does not hold (cause FREE: kept alive by somebody else's
     finalizer) gets no handler at all — resuming ones included, opted in or not — and the records the owned handlers
-    left behind are purged (/repo 40d09eb). -/
+    left behind are purged (/repo 40d09eb: the FREE branch of the whole pass `C02.cycleB`, which `step` runs). -/
 theorem free_step_nothing (decls : List Decl) (m : Option Mem) (P : Store) (e : Event)
     (hs : e.suppressed = false) (hfree : (causeOf (recall m e) e).reason = .free) :
     (step decls m P e).invoked = [] ∧ ∀ d ∈ decls, (step decls m P e).P d.id = none := by
-  have hr : handlerReasons.contains (cfgOf decls (recall m e) e).reason = false := by
-    show handlerReasons.contains (reasonStr (causeOf (recall m e) e).reason) = false
+  have hf : ((cfgOf decls (recall m e) e).reason == "free") = true := by
+    show (reasonStr (causeOf (recall m e) e).reason == "free") = true
     rw [hfree]; decide
   unfold step
   simp only [hs, Bool.false_eq_true, if_false]
-  rw [cycle_not_handler_reason _ P e.now e.now1 e.exec hr]
+  rw [cycleB_free _ _ P e.now e.now1 e.exec hf]
   refine ⟨rfl, ?_⟩
   intro d hd
-  have hmem : d.id ∈ decls.map (·.id) := List.mem_map_of_mem hd
-  simp [freePurge, hfree, purge, hmem]
+  have hmem : d.id ∈ (cfgOf decls (recall m e) e).owned := List.mem_map_of_mem hd
+  simp [purge, hmem]
 
-/-! ### The first clause in composition with the admission webhooks (finding F10, open)
+/-! ### The first clause in composition with the admission webhooks (finding F10, repaired by /repo 755fd2f)
 
 `recall` above creates the memory from the first PROCESSED event of the object. The code has a second creator:
-an admission request for the object (`admission`). If one is served before the listing event of an existing object is
-processed — at the start-up the webhook server is up as soon as the resources are scanned, while the listing can
+an admission request for the object (`admission`). One can be served before the listing event of an existing object
+is processed — at the start-up the webhook server is up as soon as the resources are scanned, while the listing can
 take long or be retried; a stand-by operator paused by the peering keeps serving webhooks and lists only when it
-takes over — the object's memory exists with `noticed = false`, and the first clause is FALSE of the code:
-the object is never resumed in this process. -/
+takes over. Before 755fd2f such a memory said "not noticed by the listing" (`admissionOld`), the listing event found
+it, and the object was never resumed in that process. Now it says "not known yet", and the first processed event
+decides — so the admission requests, wherever they fall in the object's history, are invisible to the handling. -/
 
-/-- After an admission request (other than CREATE) for an object the operator has not processed yet, no resuming
-    handler is ever invoked for that object in this process, whatever events follow. -/
+/-- The flag is decided by the first processed event and by nothing else: after `recall` it is never undecided (so
+    `_detect_causes` never reads a None), a new or undecided memory takes the event's kind, a decided one is left alone
+    — a re-listing does not turn an object first seen through the watch stream into a "noticed" one, nor back. -/
+theorem first_event_decides (e : Event) :
+    (∀ m, (recall m e).noticed ≠ none) ∧
+    (recall none e).noticed = some e.byListing ∧
+    (∀ mem, mem.noticed = none → (recall (some mem) e).noticed = some e.byListing) ∧
+    (∀ mem b, mem.noticed = some b → recall (some mem) e = mem) := by
+  refine ⟨?_, rfl, ?_, ?_⟩
+  · intro m
+    cases m with
+    | none => simp [recall]
+    | some mem =>
+      cases h : mem.noticed with
+      | none => simp [recall, h]
+      | some b => simp [recall, h]
+  · intro mem h; simp [recall, h]
+  · intro mem b h; simp [recall, h]
+
+/-- UNGUARDED: whatever admission requests are served for the object, and whenever (before its first event, between
+    two events, after a DELETED event forgot the memory), the handlers invoked event by event are exactly those of
+    the history without the requests. Every theorem about `run` in this file is thereby a theorem about `runA`. -/
+theorem runA_eq_run (decls : List Decl) (inps : List Inp) :
+    ∀ (m : Option Mem) (P : Store), runA decls m P inps = run decls m P (eventsOf inps) := by
+  induction inps with
+  | nil => intro m P; rfl
+  | cons x rest ih =>
+    intro m P
+    cases x with
+    | event e => simp only [runA, eventsOf, run, ih]
+    | review c => simp only [runA, eventsOf, ih, run_admission]
+
+/-- any number of admission requests before the object's first processed event -/
+def admissions (m : Option Mem) (reqs : List Bool) : Option Mem := reqs.foldl admission m
+
+theorem recall_admissions (reqs : List Bool) :
+    ∀ (m : Option Mem) (e : Event), recall (admissions m reqs) e = recall m e := by
+  induction reqs with
+  | nil => intro m e; rfl
+  | cons c rest ih =>
+    intro m e
+    show recall (admissions (admission m c) rest) e = _
+    rw [ih, recall_admission]
+
+theorem step_admissions (decls : List Decl) (reqs : List Bool) :
+    ∀ (m : Option Mem) (P : Store) (e : Event), step decls (admissions m reqs) P e = step decls m P e := by
+  induction reqs with
+  | nil => intro m P e; rfl
+  | cons c rest ih =>
+    intro m P e
+    show step decls (admissions (admission m c) rest) P e = _
+    rw [ih, step_admission]
+
+theorem run_admissions (decls : List Decl) (reqs : List Bool) (m : Option Mem) (P : Store) (events : List Event) :
+    run decls (admissions m reqs) P events = run decls m P events := by
+  cases events with
+  | nil => rfl
+  | cons e rest => simp only [run, step_admissions]
+
+/-- THE FIRST CLAUSE, UNGUARDED in this respect (was FALSE before 755fd2f: `admitted_first_never_resumed`): an object that
+    exists when the operator starts gets the resuming cause at its first processed — listing — event and every matching
+    resume handler is selected, whether or not admission requests for it were served first, and however many. -/
+theorem eligible_selected_admitted (decls : List Decl) (d : Decl) (hd : d ∈ decls)
+    (hini : d.gate.initial = true) (hreason : d.gate.reason = none) (e : Event)
+    (hl : e.byListing = true) (hdel : e.deleted = false) (hm : e.marked = false)
+    (hold : e.oldAbsent = false) (hdiff : e.diffNonEmpty = false) (hmatch : e.matchF d.id = true)
+    (reqs : List Bool) :
+    (causeOf (recall (admissions none reqs) e) e).reason = .resume ∧
+      d.id ∈ (cfgOf decls (recall (admissions none reqs) e) e).selected := by
+  rw [recall_admissions]
+  exact eligible_selected decls d hd hini hreason e hl hdel hm hold hdiff hmatch
+
+/-- … and it is invoked in that first cycle, as the first attempt (the hypotheses of `eligible_invoked`, nothing more). -/
+theorem eligible_invoked_admitted (decls : List Decl) (d : Decl) (hd : d ∈ decls)
+    (hini : d.gate.initial = true) (hreason : d.gate.reason = none) (e : Event)
+    (hl : e.byListing = true) (hdel : e.deleted = false) (hm : e.marked = false)
+    (hold : e.oldAbsent = false) (hmatch : e.matchF d.id = true)
+    (hs : e.suppressed = false) (hlc : e.lifecycle = .allAtOnce)
+    (P : C02.Store) (hP : P d.id = none)
+    (hto : ∀ t, (e.limits d.id).timeout = some t → 0 < t)
+    (hre : ∀ n, (e.limits d.id).retries = some n → 0 < n)
+    (reqs : List Bool) :
+    (d.id, 0) ∈ (step decls (admissions none reqs) P e).invoked := by
+  rw [step_admissions]
+  exact (eligible_invoked decls d hd hini hreason e hl hdel hm hold hmatch hs hlc P hP hto hre).1
+
+/-- The other side ("creation never mixes with resuming", and no resuming for what appears later): an object whose
+    first PROCESSED event comes from the watch stream (ADDED / MODIFIED) — e.g. an object being created, whose
+    UPDATE admission requests may well come before that event — is never resumed in this process, admission requests
+    or not: the undecided flag is decided by that event as "not noticed by the listing", for good. -/
+theorem watched_first_never_resumed (decls : List Decl) (reqs : List Bool) (e : Event) (rest : List Event) (P : Store)
+    (hw : e.byListing = false) (hde : e.deleted = false) (hdel : ∀ e' ∈ rest, e'.deleted = false) :
+    ∀ l ∈ run decls (admissions none reqs) P (e :: rest), ∀ i n, (i, n) ∈ l →
+      ¬ (∀ d ∈ decls, d.id = i → d.gate.initial = true) := by
+  rw [run_admissions]
+  intro l hl i n hin hres
+  simp only [run, List.mem_cons] at hl
+  rcases hl with rfl | hl
+  · have := (resume_invoked_only_initial decls none P e i n hin hres).1
+    simp [recall, hw] at this
+  · have hmem : ∃ mem', (step decls none P e).mem = some mem' ∧ mem'.noticed = some false := by
+      unfold step
+      by_cases hs : e.suppressed = true
+      · simp [hs, hde, recall, hw]
+      · simp [hs, hde, recall, hw]
+    obtain ⟨mem', hm', hn'⟩ := hmem
+    rw [hm'] at hl
+    exact not_for_new decls rest mem' _ hn' hdel l hl i n hin hres
+
+/-- REGRESSION (finding F10, the pre-755fd2f admission): after an admission request (other than CREATE) for an object
+    the operator had not processed yet, no resuming handler was ever invoked for that object in that process,
+    whatever events followed — the listing event included. -/
 theorem admitted_first_never_resumed (decls : List Decl) (events : List Event) (P : Store)
     (hdel : ∀ e ∈ events, e.deleted = false) :
-    ∃ mem, admission none false = some mem ∧
+    ∃ mem, admissionOld none false = some mem ∧
       ∀ l ∈ run decls (some mem) P events, ∀ i n, (i, n) ∈ l →
         ¬ (∀ d ∈ decls, d.id = i → d.gate.initial = true) :=
-  ⟨{ noticed := false, fullyHandled := false }, rfl,
-   not_for_new decls events { noticed := false, fullyHandled := false } P rfl hdel⟩
+  ⟨{ noticed := some false, fullyHandled := false }, rfl,
+   not_for_new decls events { noticed := some false, fullyHandled := false } P rfl hdel⟩
 
-/-- The witness (replayed on the real code: corpus/C14/F10_admission_first.json): the very listing event that gets
-    the eligible object resumed (`eligible_invoked`) does nothing once an UPDATE admission request came first. -/
+/-- The witness (replayed on the real code: corpus/C14/F10_admission_first.json — a regression that must pass now):
+    the listing event that gets the eligible object resumed (`eligible_invoked`) does so after an UPDATE admission
+    request too; with the admission as it was before 755fd2f it did nothing (a no-op cause). -/
 theorem admitted_first_witness :
     let e : Event :=
       { byListing := true, deleted := false, marked := false, blocked := false, oldAbsent := false,
         diffNonEmpty := false, suppressed := false, matchF := fun _ => true,
         limits := fun _ => ⟨none, none⟩, lifecycle := .allAtOnce, now := 3, now1 := 3,
         exec := fun _ _ => { final := true, delay := none, error := false, subrefs := [] } }
-    (step [⟨"r1", ⟨none, true, false⟩⟩] none (fun _ => none) e).invoked = [("r1", 0)] ∧
-    (causeOf (recall (admission none false) e) e).reason = .noop ∧
-    (step [⟨"r1", ⟨none, true, false⟩⟩] (admission none false) (fun _ => none) e).invoked = [] ∧
+    let decls : List Decl := [⟨"r1", ⟨none, true, false⟩⟩]
+    runA decls none (fun _ => none) [.event e] = [[("r1", 0)]] ∧
+    -- now
+    runA decls none (fun _ => none) [.review false, .event e] = [[("r1", 0)]] ∧
+    (causeOf (recall (admission none false) e) e).reason = .resume ∧
+    -- before 755fd2f
+    runAOld decls none (fun _ => none) [.review false, .event e] = [[]] ∧
+    (causeOf (recall (admissionOld none false) e) e).reason = .noop ∧
     -- a CREATE request leaves no memory behind, and a request for a known object changes nothing
     admission none true = none ∧
-    admission (some { noticed := true, fullyHandled := false }) false = some { noticed := true, fullyHandled := false } := by
-  refine ⟨by decide, by decide, by decide, rfl, rfl⟩
+    admission (some { noticed := some true, fullyHandled := false }) false = some { noticed := some true, fullyHandled := false } ∧
+    -- the undecided memory is decided by the first processed event: a listing one, or one from the watch stream
+    (recall (admission none false) e).noticed = some true ∧
+    (recall (admission none false) { e with byListing := false }).noticed = some false := by
+  refine ⟨by decide, by decide, by decide, by decide, by decide, rfl, rfl, rfl, rfl⟩
 
 /-! ### At most once per object per process
 
@@ -332,28 +459,31 @@ theorem settled_not_invoked (decls : List Decl) (i : Id)
   intro hin
   rcases hor with hf | hr
   · have := (resume_invoked_only_initial decls (some mem) P e i n hin hres).2.1
-    simp [recall, hf] at this
-  · unfold step at hin
-    by_cases hsup : e.suppressed = true
-    · simp [hsup] at hin
-    · simp only [hsup, Bool.false_eq_true, if_false, recall] at hin
-      have hsel := (invoked_selected_awake _ P e.now e.now1 e.exec (selected_sub_owned decls mem e) i n hin).1
-      exact resumed_not_selected decls mem e i hres hr hsel
+    rw [recall_some_fullyHandled, hf] at this; cases this
+  · by_cases hsup : e.suppressed = true
+    · rw [step_suppressed _ _ _ _ hsup] at hin; simp at hin
+    · have hsup' : e.suppressed = false := by simpa using hsup
+      rw [(step_eq decls (some mem) P e hsup').1] at hin
+      have hsel := (invoked_selected_awake _ _ e.now e.now1 e.exec
+        (selected_sub_owned decls (recall (some mem) e) e) i n hin).1
+      exact resumed_not_selected decls (recall (some mem) e) e i hres (by rw [recall_some_resumed]; exact hr) hsel
 
 theorem settled_preserved (decls : List Decl) (i : Id) (m : Option Mem) (hs : Settled i m)
     (P : Store) (e : Event) (hde : e.deleted = false) : Settled i (step decls m P e).mem := by
   obtain ⟨mem, rfl, hor⟩ := hs
-  unfold step
   by_cases hsup : e.suppressed = true
-  · simp only [hsup, if_true, hde, Bool.false_eq_true, if_false, recall]
-    exact ⟨mem, rfl, hor⟩
-  · simp only [hsup, Bool.false_eq_true, if_false, hde, recall]
+  · rw [step_suppressed _ _ _ _ hsup]
+    simp only [hde, Bool.false_eq_true, if_false]
+    exact ⟨_, rfl, by rw [recall_some_fullyHandled, recall_some_resumed]; exact hor⟩
+  · have hsup' : e.suppressed = false := by simpa using hsup
+    rw [(step_eq decls (some mem) P e hsup').2.2]
+    simp only [hde, Bool.false_eq_true, if_false]
     refine ⟨_, rfl, ?_⟩
     rcases hor with hf | hr
-    · left; simp [hf]
-    · by_cases hc : (cycle (cfgOf decls mem e) P e.now e.now1 e.exec).closed = true
+    · left; simp [recall_some_fullyHandled, hf]
+    · by_cases hc : (passOf decls (recall (some mem) e) e P).closed = true
       · left; simp [hc]
-      · right; simp [hc, hr]
+      · right; simp [hc, recall_some_resumed, hr]
 
 /-- An invoked handler whose outcome is final is among the pass's final outcomes. -/
 theorem invoked_final_in_finals (cfg : Cfg) (P : Store) (now now1 : Tick) (exec : Id → Nat → Outcome)
@@ -404,17 +534,17 @@ theorem completed_never_again (decls : List Decl) (d : Decl) (hd : d ∈ decls)
     have hsup : e.suppressed = false := by
       cases hs : e.suppressed
       · rfl
-      · unfold step at hinv; simp [hs] at hinv
-    unfold step at hinv ⊢
-    simp only [hsup, Bool.false_eq_true, if_false] at hinv ⊢
+      · rw [step_suppressed _ _ _ _ hs] at hinv; simp at hinv
+    rw [(step_eq decls m P e hsup).1] at hinv
+    rw [(step_eq decls m P e hsup).2.2]
     simp only [hde, Bool.false_eq_true, if_false]
     refine ⟨_, rfl, ?_⟩
-    by_cases hc : (cycle (cfgOf decls (recall m e) e) P e.now e.now1 e.exec).closed = true
+    by_cases hc : (passOf decls (recall m e) e P).closed = true
     · left; simp [hc]
     · right
-      simp only [hc, Bool.false_eq_true, if_false, List.mem_append, List.mem_filter]
+      simp only [hc, Bool.false_eq_true, if_false, finalsOf, List.mem_append, List.mem_filter]
       right
-      refine ⟨invoked_final_in_finals _ P e.now e.now1 e.exec d.id n hinv hfin, ?_⟩
+      refine ⟨invoked_final_in_finals _ _ e.now e.now1 e.exec d.id n hinv hfin, ?_⟩
       simp only [isInitial, List.any_eq_true]
       exact ⟨d, hd, by simp [hres d hd rfl]⟩
   -- and stays settled, hence never invoked, along any continuation
@@ -469,7 +599,7 @@ theorem flipflop_regression :
         limits := fun _ => ⟨none, none⟩, lifecycle := .allAtOnce, now := 0, now1 := 0,
         exec := fun i _ => if i = "r2" then again else ok }
     run [⟨"r1", ⟨none, true, false⟩⟩, ⟨"r2", ⟨none, true, false⟩⟩]
-        (some { noticed := true, fullyHandled := false }) (fun _ => none)
+        (some { noticed := some true, fullyHandled := false }) (fun _ => none)
         [ev false true, ev true false, ev false true]
       = [[("r1", 0), ("r2", 0)], [("r2", 1)], [("r2", 2)]] := by decide
 
@@ -484,7 +614,7 @@ theorem stale_view_regression :
         limits := fun _ => ⟨none, none⟩, lifecycle := .allAtOnce, now := 0, now1 := 0,
         exec := fun i _ => if i = "r2" then again else ok }
     runViews [⟨"r1", ⟨none, true, false⟩⟩, ⟨"r2", ⟨none, true, false⟩⟩]
-        (some { noticed := true, fullyHandled := false })
+        (some { noticed := some true, fullyHandled := false })
         [(ev, fun _ => none), (ev, fun _ => none), (ev, fun _ => none)]
       = [[("r1", 0), ("r2", 0)], [("r2", 0)], [("r2", 0)]] := by decide
 
@@ -498,9 +628,9 @@ example :
         limits := fun _ => ⟨none, none⟩, lifecycle := .allAtOnce, now := 0, now1 := 0,
         exec := fun i _ => if i = "r2" then again else ok }
     let decls : List Decl := [⟨"r1", ⟨none, true, false⟩⟩, ⟨"r2", ⟨none, true, false⟩⟩]
-    let s := step decls (some { noticed := true, fullyHandled := false }) (fun _ => none) ev
+    let s := step decls (some { noticed := some true, fullyHandled := false }) (fun _ => none) ev
     ("r1", 0) ∈ s.invoked ∧ (ev.exec "r1" 0).final = true ∧ s.closed = false ∧
-      s.mem = some { noticed := true, fullyHandled := false, resumed := ["r1"] } := by
+      s.mem = some { noticed := some true, fullyHandled := false, resumed := ["r1"] } := by
   refine ⟨by decide, by decide, by decide, by decide⟩
 
 -- non-vacuity of `eligible_invoked`: a listed, handled-before, unchanged object with one resume handler
